@@ -211,8 +211,8 @@ pub fn run(ctx: &Ctx, model: &mut Model, rep: &mut Report) {
         D28_OPEN.store(false, Ordering::Relaxed);
         D10_OPEN.store(false, Ordering::Relaxed);
         if let Some(l0) = act::formatted(&lib, v["ext"].as_str().unwrap_or("")) {
-            if let Some(what) = check_note(&l0, v["ext"].as_str().unwrap_or(""), v["key"].as_str().unwrap_or("a")) {
-                rep.fail(json!({"kind": "extract_inline", "library": lib, "ext": v["ext"], "key": v["key"], "what": what}));
+            if let Some(what) = act::with_via(act::via_from(&v["via"]), || check_note(&l0, v["ext"].as_str().unwrap_or(""), v["key"].as_str().unwrap_or("a"))) {
+                rep.fail(json!({"kind": "extract_inline", "library": lib, "ext": v["ext"], "key": v["key"], "via": v["via"], "what": what}));
             }
         }
         return;
@@ -239,7 +239,7 @@ pub fn run(ctx: &Ctx, model: &mut Model, rep: &mut Report) {
         let main = if lib[2].1.len() > lib[0].1.len() { 2 } else { 0 };
         let dir = Key::from_file_name(&lib[main].0).parent();
         let rel = |k: &str| Key::from_file_name(k).to_rel_link_url(&dir);
-        match r.below(5) {
+        match r.below(7) {
             0 => lib[main].1 = format!("[top]({})\n\n{}", rel("b"), lib[main].1),
             1 => {
                 let me = lib[main].0.clone();
@@ -247,6 +247,18 @@ pub fn run(ctx: &Ctx, model: &mut Model, rep: &mut Report) {
                 lib[main].1.push_str(&add)
             }
             2 => lib[main].1.push_str(&format!("\n# more\n\n[b]({})\n\n## sub one\n\ntext one\n\n## sub two\n\ntext two\n", rel("b"))),
+            3 | 4 => {
+                // a reference to a note in the other directory which itself refers to notes of both directories:
+                // inlining it has to re-write those references relative to the host
+                let (target, near, far) = if main == 0 { (3, "d/x", "b") } else { (1, "a", "d/y") };
+                let tdir = Key::from_file_name(&lib[target].0).parent();
+                let trel = |k: &str| Key::from_file_name(k).to_rel_link_url(&tdir);
+                let add = format!("\n## refs\n\n[near]({})\n\n[far]({})\n", trel(near), trel(far));
+                lib[target].1.push_str(&add);
+                let t = lib[target].0.clone();
+                let host = format!("\n# inlined\n\n[moved]({})\n", rel(&t));
+                lib[main].1.push_str(&host);
+            }
             _ => {}
         }
         let ext = if i % 3 == 0 { ".md" } else { "" };
@@ -287,8 +299,10 @@ pub fn run(ctx: &Ctx, model: &mut Model, rep: &mut Report) {
         if i < 1 {
             rep.sample(json!({"library": l0, "ext": ext, "key": key}));
         }
-        if let Some(what) = check_note(&l0, ext, &key) {
-            rep.fail(json!({"kind": "extract_inline", "library": lib, "ext": ext, "key": key, "what": what}));
+        let via = act::via_for(i as u64);
+        rep.count(&format!("loaded_via_{:?}", via));
+        if let Some(what) = act::with_via(via, || check_note(&l0, ext, &key)) {
+            rep.fail(json!({"kind": "extract_inline", "library": lib, "ext": ext, "key": key, "via": format!("{:?}", via), "what": what}));
         }
     }
     let _ = dump::catch(|| ());
